@@ -114,11 +114,13 @@ def entry_goal_jobs(run, kinds, W=16):
              "args": ["replay", "--seed", str(run.seed), os.path.join(vlib.VERIF, "corpus", "%s_w%d_entrygoals.ndjson" % (k, W))]} for k in kinds]
 
 
-def generic_check(run, models_q, models_t, jobs_q, jobs_t, rule, corpus=False, fault_corpus=False, goals=False, sgoals=False, tgoals=False, egoals=()):
+def generic_check(run, models_q, models_t, jobs_q, jobs_t, rule, corpus=False, fault_corpus=False, goals=False, sgoals=False, tgoals=False, egoals=(), count=False):
     quick = run.tier == Q
     run.assumptions += COMMON_ASSUMPTIONS
     for m in (models_q if quick else models_q + models_t):
         run.model(*m[:2], **(m[2] if len(m) > 2 else {}))
+    if count:
+        layout.count_checks(run)
     jobs = jobs_q if quick else jobs_q + jobs_t
     jl = []
     for j in jobs:
@@ -248,7 +250,7 @@ def c08(run):
          ("capset", ["set:k1:collide:20:500:set", "set:k3:fewpos:16:300:set", "set:k6:zero:12:300:set", "map:k3v4:collide:14:300:cap", "map:k5v4:onegroup:12:300:cap"])],
         [("cap2", ["map:kv24:onegroup:14:3000:cap", "map:kva64:fewpos:30:3000:cap", "map:k1v4:max:12:3000:cap"]),
          ("capg", ["map:kv16:collide:24:3000:cap", "set:k1:zero:14:2000:set"], G)],
-        "capacity()/len()/allocation_size() and allocator events recorded around every call and checked against the capacity contract on tombstoned states", corpus=True, goals=True)
+        "capacity()/len()/allocation_size() and allocator events recorded around every call and checked against the capacity contract on tombstoned states; for every table size (Apalache, HbCount): capacity() >= len() follows from the inductive bookkeeping invariant", corpus=True, goals=True, count=True)
 
 
 ITER_MODELS = [("MC_iter_w4.cfg", "MC_iter.tla", {"timeout": 300, "workers": 6}), ("MC_iter_w16s.cfg", "MC_iter.tla", {"timeout": 300, "workers": 6}),
@@ -474,7 +476,8 @@ def c13(run):
          ("churn5", ["map:kv24:collide:40:20000:churn"], {"tlc_timeout": 1800}),
          ("churng", ["map:kv16:zero:14:10000:churn"], {"backend": "generic", "tlc_timeout": 1800}),
          {"name": "churngoals_w8", "backend": "generic", "args": ["replay", "--seed", "@SEED@", "corpus/map_w8_churn.ndjson"]}],
-        "model: insert/remove interleavings with bounded live size and unbounded buckets terminate with buckets <= bound; code: long churns, allocation_size bounded at every step", corpus=True)
+        "model: insert/remove interleavings with bounded live size and unbounded buckets terminate with buckets <= bound; code: long churns, allocation_size bounded at every step; "
+        "for every table size (Apalache, HbCount): the bookkeeping invariant is inductive and implies that an EMPTY byte exists, so every probe terminates", corpus=True, count=True)
 
 
 def c14(run):
